@@ -70,6 +70,7 @@ def cases(ctx):
         n = len(B[name].faces)
         for rem in [(0,), (5,), (0, 1), (7, 8)]:
             yield {"kind": "fill_holes", "base": name, "remove": list(rem)}
+            yield {"kind": "fill_holes", "base": name, "remove": list(rem), "history": "read_invert"}
     yield {"kind": "subdivide", "base": "stacked", "iterations": 1}
     yield {"kind": "subdivide", "base": "stacked", "iterations": 2}
     for name in ("tet", "box", "ico"):
@@ -77,6 +78,8 @@ def cases(ctx):
         pairs = list(itertools.combinations(range(n), 2))
         for rem in [(i,) for i in range(n)] + (pairs if ctx.tier == "thorough" else rng.sample(pairs, min(len(pairs), 25))):
             yield {"kind": "fill_holes", "base": name, "remove": list(rem)}
+            if len(rem) == 1 and rem[0] % 3 == 0:
+                yield {"kind": "fill_holes", "base": name, "remove": list(rem), "history": "read_invert"}
     if ctx.tier == "thorough":
         for name in ("tet", "box"):
             n = len(B[name].faces)
@@ -171,6 +174,11 @@ def run_case(c):
         keep = np.ones(len(base.faces), dtype=bool)
         keep[c["remove"]] = False
         m = trimesh.Trimesh(np.array(base.vertices), np.array(base.faces)[keep], process=False)
+        if c.get("history") == "read_invert":
+            # derived values are read on the open mesh, then it is turned inside-out, then the holes are filled:
+            # the result must be the closed surface, inside-out
+            _ = m.is_watertight, m.edges_unique, m.face_adjacency, m.euler_number
+            m.invert()
         r = m.fill_holes()
         o.update({"returned": bool(r), "watertight": bool(m.is_watertight), "winding": bool(m.is_winding_consistent),
                   "volume": float(m.volume), "nfaces": len(m.faces), "base_nfaces": len(base.faces)})
@@ -247,9 +255,10 @@ def oracle(c, o):
         if in_scope:
             # a missing triangle is refilled by itself (same volume); a non-planar quad can be closed by either
             # diagonal, so only validity is required there
-            same_volume = abs(o["volume"] - o["base_volume"]) < 1e-9 * max(1.0, abs(o["base_volume"])) if len(c["remove"]) == 1 else o["volume"] > 0
+            sgn = -1.0 if c.get("history") == "read_invert" else 1.0
+            same_volume = abs(sgn * o["volume"] - o["base_volume"]) < 1e-9 * max(1.0, abs(o["base_volume"])) if len(c["remove"]) == 1 else sgn * o["volume"] > 0
             if not (o["watertight"] and o["winding"] and same_volume):
-                return bad("hole-not-closed-with-correctly-wound-faces", removed=len(c["remove"]),
+                return bad("hole-not-closed-with-correctly-wound-faces", removed=len(c["remove"]), history=c.get("history"),
                            hole_vertices=o["hole_vertices"], base_faces=o["base_nfaces"])
     elif k in ("subdivide", "loop"):
         if not (o["watertight"] and o["winding"] and o["euler"] == o["base_euler"] and o["nfaces"] == o["expect_faces"]):
